@@ -1908,9 +1908,9 @@ func main() {
 		}
 		// EVERY fault sequence over {ok, error, denied, ACL not found} on up to n call positions spread
 		// over the LAST TWO sync steps of the history (fail in one sync, refusal in the next, ...)
-		nMulti, every := 3, 10
+		nMulti, every, coqMulti := 3, 10, 8
 		if pairs {
-			nMulti, every = 4, 4
+			nMulti, every, coqMulti = 4, 4, 24
 		}
 		if hi%every == 0 && len(base.syncCalls) > 0 {
 			var pos []int
@@ -1944,7 +1944,7 @@ func main() {
 				if nz < 2 {
 					continue // single faults are enumerated above
 				}
-				emit(kind+"/multi", h, faults, code%8 == 0)
+				emit(kind+"/multi", h, faults, code%coqMulti == 0)
 			}
 		}
 		if pairs && base.calls >= 2 {
